@@ -220,12 +220,36 @@ func (f *Frame) bitop(st *State, op token.Token, a, b Val, t types.Type, bits in
 	fn := f.c.uf(fmt.Sprintf("%s%d", nm, bits), []string{"Int", "Int"}, "Int")
 	r := fmt.Sprintf("(%s %s %s)", fn, x, y)
 	f.c.note(fmt.Sprintf("%s on non-constant operands is an uninterpreted function with range/bound axioms only", nm))
+	if !signed && bits == 8 {
+		// byte-wide operations with a single-bit operand (bit-set flags): exact arithmetic identities
+		//   x & 2^k = 2^k * bit_k(x);  x | 2^k = x + 2^k * (1 - bit_k(x));  x &^ 2^k = x - 2^k * bit_k(x)
+		for k := 0; k < 8; k++ {
+			p := pow2(k).String()
+			bit := func(v string) string { return fmt.Sprintf("(mod (div %s %s) 2)", v, p) }
+			switch op {
+			case token.AND:
+				st.assume(fmt.Sprintf("(=> (= %s %s) (= %s (* %s %s)))", y, p, r, p, bit(x)))
+				st.assume(fmt.Sprintf("(=> (= %s %s) (= %s (* %s %s)))", x, p, r, p, bit(y)))
+			case token.OR:
+				st.assume(fmt.Sprintf("(=> (= %s %s) (= %s (+ %s (* %s (- 1 %s)))))", y, p, r, x, p, bit(x)))
+				st.assume(fmt.Sprintf("(=> (= %s %s) (= %s (+ %s (* %s (- 1 %s)))))", x, p, r, y, p, bit(y)))
+			case token.AND_NOT:
+				st.assume(fmt.Sprintf("(=> (= %s %s) (= %s (- %s (* %s %s))))", y, p, r, x, p, bit(x)))
+			}
+		}
+	}
 	if !signed {
 		st.assume(fmt.Sprintf("(>= %s 0)", r))
 		switch op {
 		case token.AND:
 			st.assume(fmt.Sprintf("(<= %s %s)", r, x))
 			st.assume(fmt.Sprintf("(<= %s %s)", r, y))
+			// the power-of-two idiom n & (n-1) == 0: a power of two that is at least 2^k is a multiple of 2^k
+			for _, k := range []int{1, 2, 3, 4, 5, 6} {
+				p := pow2(k).String()
+				st.assume(fmt.Sprintf("(=> (and (= (+ %s 1) %s) (= %s 0) (>= %s %s)) (= (mod %s %s) 0))", y, x, r, x, p, x, p))
+				st.assume(fmt.Sprintf("(=> (and (= (+ %s 1) %s) (= %s 0) (>= %s %s)) (= (mod %s %s) 0))", x, y, r, y, p, y, p))
+			}
 		case token.OR:
 			st.assume(fmt.Sprintf("(>= %s %s)", r, x))
 			st.assume(fmt.Sprintf("(>= %s %s)", r, y))
